@@ -32,26 +32,33 @@ Inductive op :=
 | OVec | OUnvec (s : list nat) | OUnfold (m : Z) | OFold (m : Z) (s : list nat)
 | OPUnfold (m : Z) (sb se : nat) (rav : bool) | OPFold (m : Z) (s : list nat) (sb se : nat)
 | OPVec (sb se : nat) | OPUnvec (s : list nat) (sb se : nat)
-| OMat (rows : list Z) (cols : option (list Z))
+| OMat (rows : pyseq) (cols : option pyseq)
+(* signed skip_begin / skip_end (negative values are outside the documented domain: what the source does with them is
+   deterministic and is compared with the statement-by-statement model only) *)
+| OPUnfoldZ (m sb se : Z) (rav : bool) | OPFoldZ (m : Z) (s : list nat) (sb se : Z)
+| OPVecZ (sb se : Z) | OPUnvecZ (s : list nat) (sb se : Z)
 (* NumPy primitives as dispatched by the backend, validating Base/Tensor.v; OMoveG is the generic
    Backend.moveaxis of tensorly/backend/core.py *)
 | OMove (a b : Z) | OMoveG (a b : Z) | OTrans (p : list nat) | OReshape (spec : list (option nat)).
 
-Definition run (o : op) (t : tensor Z) : res (tensor Z) :=
+Definition aslist (x : pyseq) : list Z := match x with PInt z => [z] | PSeq l => l end.
+(* the hand model of Model/Base.v / BaseExt.v (None: the request is outside its argument types) *)
+Definition run (o : op) (t : tensor Z) : option (res (tensor Z)) :=
   match o with
-  | OVec => tensor_to_vec t
-  | OUnvec s => vec_to_tensor t s
-  | OUnfold m => unfold_z 0%Z t m
-  | OFold m s => fold_z 0%Z t m s
-  | OPUnfold m sb se rav => partial_unfold_z 0%Z t m sb se rav
-  | OPFold m s sb se => partial_fold_z 0%Z t m s sb se
-  | OPVec sb se => partial_tensor_to_vec 0%Z t sb se
-  | OPUnvec s sb se => partial_vec_to_tensor 0%Z t s sb se
-  | OMat rows cols => matricize_z 0%Z t rows cols
-  | OMove a b => moveaxis_z 0%Z t a b
-  | OMoveG a b => moveaxis_generic_z 0%Z t a b
-  | OTrans p => if is_permb (ndim t) p then Ok (transpose 0%Z p t) else Err
-  | OReshape spec => reshape_spec spec t
+  | OVec => Some (tensor_to_vec t)
+  | OUnvec s => Some (vec_to_tensor t s)
+  | OUnfold m => Some (unfold_z 0%Z t m)
+  | OFold m s => Some (fold_z 0%Z t m s)
+  | OPUnfold m sb se rav => Some (partial_unfold_z 0%Z t m sb se rav)
+  | OPFold m s sb se => Some (partial_fold_z 0%Z t m s sb se)
+  | OPVec sb se => Some (partial_tensor_to_vec 0%Z t sb se)
+  | OPUnvec s sb se => Some (partial_vec_to_tensor 0%Z t s sb se)
+  | OMat rows cols => Some (matricize_z 0%Z t (aslist rows) (option_map aslist cols))
+  | OMove a b => Some (moveaxis_z 0%Z t a b)
+  | OMoveG a b => Some (moveaxis_generic_z 0%Z t a b)
+  | OTrans p => Some (if is_permb (ndim t) p then Ok (transpose 0%Z p t) else Err)
+  | OReshape spec => Some (reshape_spec spec t)
+  | OPUnfoldZ _ _ _ _ | OPFoldZ _ _ _ _ | OPVecZ _ _ | OPUnvecZ _ _ _ => None
   end.
 
 (* The same request on the statement-by-statement model of Model/BasePy.v (what the ast translator regenerates from the
@@ -70,6 +77,10 @@ Definition run_g (o : op) (a : ndarray Z Z) : option (res (ndarray Z Z)) :=
   | OPVec sb se => Some (g_partial_tensor_to_vec TB a (Z.of_nat sb) (Z.of_nat se))
   | OPUnvec s sb se => Some (g_partial_vec_to_tensor TB a (map Z.of_nat s) (Z.of_nat sb) (Z.of_nat se))
   | OMat rows cols => Some (g_matricize TB a rows cols)
+  | OPUnfoldZ m sb se rav => Some (g_partial_unfold TB a m sb se rav)
+  | OPFoldZ m s sb se => Some (g_partial_fold TB a m (map Z.of_nat s) sb se)
+  | OPVecZ sb se => Some (g_partial_tensor_to_vec TB a sb se)
+  | OPUnvecZ s sb se => Some (g_partial_vec_to_tensor TB a (map Z.of_nat s) sb se)
   | OMove x y => Some (b_moveaxis TB a x y)
   | OMoveG x y => Some (g_moveaxis_generic TB a x y)
   | OTrans p => Some (b_transpose TB a (map Z.of_nat p))
@@ -92,7 +103,10 @@ Definition agree (c : case) : bool :=
   | None => false
   end &&
   (if Uint63.eqb (Uint63.land i 7%uint63) 0%uint63
-   then res_eqb zt_eqb (run o (dec t)) (match expected with Ok e => Ok (dec e) | Err => Err end)
+   then match run o (dec t) with
+        | Some r => res_eqb zt_eqb r (match expected with Ok e => Ok (dec e) | Err => Err end)
+        | None => true
+        end
    else true).
 (* The ids of the failing cases are returned as Z (binary), not nat: reading a unary nat of depth ~50000 back from the
    VM overflows the stack, which would turn a run WITH disagreements into "shard not evaluated". *)
